@@ -158,7 +158,7 @@ struct vyukov_hash_map<Key, Value, Policies...>::unlocker {
   ~unlocker() {
     if (enabled) {
       assert(locked_bucket.state.load().is_locked());
-      locked_bucket.state.store(state, std::memory_order_relaxed);
+      locked_bucket.state.store(state, std::memory_order_release);
     }
   }
   void unlock(bucket_state new_state, std::memory_order order) {
@@ -249,7 +249,7 @@ retry:
   for (std::uint32_t i = 0; i != item_count; ++i) {
     if (traits::template compare_key<AcquireAccessor>(bucket.key[i], bucket.value[i], key, h, acc)) {
       callback(std::move(acc), bucket.value[i]);
-      unlocker.unlock(state, std::memory_order_relaxed);
+      unlocker.unlock(state, std::memory_order_release);
       return false;
     }
   }
@@ -269,7 +269,7 @@ retry:
        extension = extension->next.load(std::memory_order_relaxed)) {
     if (traits::template compare_key<AcquireAccessor>(extension->key, extension->value, key, h, acc)) {
       callback(std::move(acc), extension->value);
-      unlocker.unlock(state, std::memory_order_relaxed);
+      unlocker.unlock(state, std::memory_order_release);
       return false;
     }
   }
@@ -423,7 +423,7 @@ restart:
   // key not found
 
   // release the bucket lock
-  unlocker.unlock(state, std::memory_order_relaxed);
+  unlocker.unlock(state, std::memory_order_release);
 
   return false;
 }
@@ -621,7 +621,7 @@ void vyukov_hash_map<Key, Value, Policies...>::grow(bucket& bucket, bucket_state
   const int already_resizing = resize_lock.exchange(1, std::memory_order_relaxed);
 
   // release the bucket lock
-  bucket.state.store(state, std::memory_order_relaxed);
+  bucket.state.store(state, std::memory_order_release);
 
   // we intentionally release the bucket lock only after we tried to acquire
   // the resize_lock, to avoid the situation where we might miss a resize
